@@ -96,8 +96,10 @@ class DiscreteTimeInterpreter(TimeInterpreter):
         return
 
     def update_sampling_violation_counter(self, duration):
-        tolerance = self.sampling_period * self.sampling_tolerance
-        if duration < self.sampling_period - tolerance or duration > self.sampling_period + tolerance:
+        # the sampling period expressed in the default unit, i.e. the unit of the time stamps
+        period = float(self.get_sampling_period()) / self.ast.U[self.ast.unit]
+        tolerance = period * self.sampling_tolerance
+        if duration < period - tolerance or duration > period + tolerance:
             self.sampling_violation_counter = self.sampling_violation_counter + 1
 
     def time_unit_transformer(self, node):
